@@ -121,8 +121,10 @@ pub fn check_a(case: &CaseA) -> Result<Option<ObsA>, (String, String)> {
         return Err(("H6:behaviour_changed_by_memory_flags".into(), format!("--heap-size {} MB with a heap log: {} after {} bytes of output; without flags: {} after {} bytes",
             case.size_mb, flagged.end.class(), flagged.output.len(), plain.end.class(), plain.output.len())));
     }
-    if matches!(flagged.end, RunEnd::Panic(_)) {
-        return Ok(None); // a panic unwinds past the heap enumeration; layer B covers failing programs
+    if matches!(flagged.end, RunEnd::Panic(_) | RunEnd::Init(_)) {
+        // a panic unwinds past the heap enumeration (layer B covers failing programs); a VM that never starts
+        // (State::from refuses the program) opens no log, exactly like the CLI
+        return Ok(None);
     }
     if flagged.heap != plain.heap {
         return Err(("H6:allocation_history_changed_by_memory_flags".into(), format!("{} heap entries with flags, {} without", flagged.heap.len(), plain.heap.len())));
@@ -415,7 +417,9 @@ struct OutA {
 
 pub fn run(seed: u64, tier: &str, ev: &mut Evidence) -> Vec<Violation> {
     let thorough = tier == "thorough";
-    let (n_a, n_b) = if thorough { (250_000usize, 200_000usize) } else { (2000, 1200) };
+    let (mut n_a, mut n_b) = if thorough { (250_000usize, 200_000usize) } else { (2000, 1200) };
+    if let Some(v) = std::env::var("VERIF_DEBUG_C16_NA").ok().and_then(|s| s.parse().ok()) { n_a = v; }
+    if let Some(v) = std::env::var("VERIF_DEBUG_C16_NB").ok().and_then(|s| s.parse().ok()) { n_b = v; }
     // ---- (A) -----------------------------------------------------------------------------------
     let mut specs: Vec<(ProgSpec, Option<u64>)> = work::corpus_specs().into_iter().filter(|(_, s)| s.source().is_some()).map(|(_, s)| (s, None)).collect();
     for j in 0..n_a {
